@@ -114,18 +114,28 @@ func c17A(c *core.Case) {
 		return
 	}
 	first := uint32(4 + c.Rng.IntN(40))
-	if res := conn.RunRollbackTx(pager.RollbackSpec{Mode: mode, Outcome: "commit", NewPageN: first}); res.Err != nil {
-		healthViolations(c, n, "create", nil)
-		return
-	}
-	for i := 0; i < c.Rng.IntN(3); i++ {
-		conn.RunRollbackTx(pager.RollbackSpec{Mode: mode, Outcome: "commit", NewPageN: d.M.PageN + uint32(c.Rng.IntN(3)), Dirty: []uint32{2, 3}})
+	// every eighth input: the interrupted transaction is the FIRST one of the
+	// database (its journal records an original size of zero pages)
+	firstTx := c.Rng.IntN(8) == 0
+	if !firstTx {
+		if res := conn.RunRollbackTx(pager.RollbackSpec{Mode: mode, Outcome: "commit", NewPageN: first}); res.Err != nil {
+			healthViolations(c, n, "create", nil)
+			return
+		}
+		for i := 0; i < c.Rng.IntN(3); i++ {
+			conn.RunRollbackTx(pager.RollbackSpec{Mode: mode, Outcome: "commit", NewPageN: d.M.PageN + uint32(c.Rng.IntN(3)), Dirty: []uint32{2, 3}})
+		}
+	} else {
+		c.Count("A_first_transaction", 1)
 	}
 	old := d.M
 	prevPos := mon.PosOf(n, "db")
 	cur := old.PageN
 
 	spec := pager.RollbackSpec{Mode: mode, Outcome: "commit", NewPageN: cur}
+	if firstTx {
+		spec.NewPageN = first
+	}
 	switch c.Rng.IntN(4) {
 	case 0:
 		spec.NewPageN = cur + uint32(1+c.Rng.IntN(8))
@@ -135,7 +145,7 @@ func c17A(c *core.Case) {
 			spec.DirtyCut = uint32(c.Rng.IntN(3)) // tail pages modified and spilled before they are cut off
 		}
 	}
-	for j := 0; j < 2+c.Rng.IntN(12); j++ {
+	for j := 0; j < 2+c.Rng.IntN(12) && cur > 0; j++ {
 		spec.Dirty = append(spec.Dirty, 1+uint32(c.Rng.IntN(int(cur))))
 	}
 	if c.Rng.IntN(2) == 0 {
@@ -150,6 +160,9 @@ func c17A(c *core.Case) {
 		spec.Outcome = "rollback"
 	}
 	abortAt := 1 + c.Rng.IntN(70)
+	if firstTx {
+		abortAt = 4 + c.Rng.IntN(4+int(first)) // (few steps: aim at the page writes)
+	}
 	steps := 0
 	syncedLen := int64(0)
 	lastStep := ""
